@@ -44,6 +44,7 @@ package main
 import (
 	"bufio"
 	"fmt"
+	"sort"
 	"strconv"
 	"strings"
 
@@ -484,7 +485,7 @@ func c03Exec(line string) string {
 		}
 		var dump, reads string
 		_ = d.db.View(func(tx *bbolt.Tx) error {
-			dump, _ = csDump(tx)
+			dump = c03Dump(tx)
 			reads = s.reads(tx, vals)
 			return nil
 		})
@@ -502,7 +503,150 @@ func c03Exec(line string) string {
 	return strings.Join(recs, "|")
 }
 
+// c03Dump: the canonical whole-database dump by a raw recursion over the bbolt buckets.  Same line
+// format as csDump (boltz.Traverse), but every path element is hex-encoded on its own, so that ids,
+// values and names may contain any byte — also '/', which Traverse's concatenated path cannot carry.
+func c03Dump(tx *bbolt.Tx) string {
+	var lines []string
+	hexPath := func(path []string, key []byte) string {
+		hs := make([]string, 0, len(path)+1)
+		for _, p := range path {
+			hs = append(hs, csHex([]byte(p)))
+		}
+		return strings.Join(append(hs, csHex(key)), "/")
+	}
+	var walk func(b *bbolt.Bucket, path []string)
+	walk = func(b *bbolt.Bucket, path []string) {
+		_ = b.ForEach(func(k, v []byte) error {
+			if v == nil {
+				if child := b.Bucket(k); child != nil {
+					lines = append(lines, "B:"+hexPath(path, k))
+					walk(child, append(append([]string{}, path...), string(k)))
+					return nil
+				}
+			}
+			lines = append(lines, "K:"+hexPath(path, k)+"="+csHex(v))
+			return nil
+		})
+	}
+	_ = tx.ForEach(func(name []byte, b *bbolt.Bucket) error {
+		lines = append(lines, "B:"+hexPath(nil, name))
+		walk(b, []string{string(name)})
+		return nil
+	})
+	sort.Strings(lines)
+	if len(lines) == 0 {
+		return "."
+	}
+	return strings.Join(lines, ",")
+}
+
 // ---------------------------------------------------------------------------------- generator
+
+// c03Pool: the id and value universes of one history
+type c03Pool struct {
+	ids, vals, roleVals []string
+	structured          bool // values with separators / structure characters: split, merge, re-order on update
+}
+
+var c03Classic = c03Pool{ids: c03Ids, vals: c03Vals, roleVals: c03RoleVals}
+
+// value families: members that a lossy rendering (join with a separator, trimming, quoting, path
+// building) could confuse — a composite next to its parts, permutations around a separator,
+// structure characters, typed-value prefixes, names of buckets and fields of the schema
+var c03Families = [][]string{
+	{"a", "b", "a,b", "b,a"},
+	{"a", "b", "ab", "ba"},
+	{"a", ",", "a,", ",a"},
+	{"a", "aa", "a,a", "a,a,a"},
+	{"a", "b", "a;b", "a,b"},
+	{"a", "b", "a|b", "a+b"},
+	{"a", "b", "a b", " a"},
+	{"a", "b", "a/b", "/"},
+	{"a", "b", "a\x00b", "\x00"},
+	{"a", "[a]", "[a", "a]"},
+	{"a", "\"a\"", "a\"", "'a'"},
+	{"a", "a:b", "a=b", "a#b"},
+	{"a", "\x05a", "\x07", "\x05"},
+	{"indexes", "things", "ext", "u"},
+	{"name", "alias", "roles", "tag"},
+	{"a,b", "b,c", "a,b,c", "c"},
+}
+
+func c03StructuredPool(r *rng) c03Pool {
+	fam := c03Families[r.intn(len(c03Families))]
+	p := c03Pool{ids: c03Ids, vals: fam[:3+r.intn(2)], roleVals: fam, structured: true}
+	if r.chance(1, 4) {
+		// ids from the family as well (entity bucket names)
+		p.ids = append([]string{}, fam...)
+	}
+	return p
+}
+
+const c03Seps = ",;|+ /\x00:=#"
+
+// c03Transform: split a composite role into its parts, merge the roles into one composite, or
+// submit the same set in another order
+func c03Transform(r *rng, roles []string) []string {
+	switch r.intn(3) {
+	case 0:
+		var res []string
+		done := false
+		for _, v := range roles {
+			if i := strings.IndexAny(v, c03Seps); !done && i >= 0 && len(v) > 1 {
+				for _, part := range strings.Split(v, v[i:i+1]) {
+					if part != "" {
+						res = append(res, part)
+					}
+				}
+				done = true
+			} else {
+				res = append(res, v)
+			}
+		}
+		if done {
+			return res
+		}
+		fallthrough
+	case 1:
+		if len(roles) > 1 {
+			sorted := csSortedCopy(roles)
+			return []string{strings.Join(sorted, string(c03Seps[r.intn(2)]))}
+		}
+		fallthrough
+	default:
+		res := make([]string, len(roles))
+		for i, v := range roles {
+			res[len(roles)-1-i] = v
+		}
+		return res
+	}
+}
+
+func (p c03Pool) readVals() string {
+	seen := map[string]bool{"": true}
+	res := []string{""}
+	add := func(v string) {
+		if !seen[v] {
+			seen[v] = true
+			res = append(res, v)
+		}
+	}
+	for _, v := range append(append([]string{}, p.vals...), p.roleVals...) {
+		add(v)
+		for _, c := range c03Seps {
+			for _, part := range strings.Split(v, string(c)) {
+				add(part)
+			}
+		}
+	}
+	if !p.structured {
+		for _, v := range []string{"z", "s", "a"} {
+			add(v)
+		}
+	}
+	return csList(res)
+}
 
 var c03Ids = []string{"a", "b", "c", "d"}
 var c03Vals = []string{"x", "y", "zq"}
@@ -670,7 +814,8 @@ func (sh *c03Shadow) pickName(r *rng, id string, vals []string) string {
 }
 
 // c03GenOp: layered = false gives the operations of the parent store only
-func c03GenOp(r *rng, sh *c03Shadow, ids, vals, roleVals []string, layered bool) c03Op {
+func c03GenOp(r *rng, sh *c03Shadow, ids []string, pool c03Pool, layered bool) c03Op {
+	vals, roleVals := pool.vals, pool.roleVals
 	blank := r.chance(1, 80)
 	live := func(id string) bool { return sh.ents[id] != nil }
 	k := r.intn(20)
@@ -738,6 +883,12 @@ func c03GenOp(r *rng, sh *c03Shadow, ids, vals, roleVals []string, layered bool)
 			default:
 				op.roles = append([]string{}, old.Roles...)
 			}
+		} else if old != nil && pool.structured && len(old.Roles) > 0 && r.chance(1, 3) {
+			// split / merge / re-order the current set, and make sure the checker writes it
+			op.roles = c03Transform(r, old.Roles)
+			if !sh.sch.selects(op.chk, sh.sch.roles.chk) {
+				op.chk = pick(r, []string{"*", "r", "nr", "ar"})
+			}
 		}
 		return op
 	}
@@ -756,8 +907,8 @@ func c03GenOp(r *rng, sh *c03Shadow, ids, vals, roleVals []string, layered bool)
 	return op
 }
 
-func c03GenHistory(r *rng, nTx int, sch c03Schema, layered bool) string {
-	ids := c03Ids[:3+r.intn(2)]
+func c03GenHistory(r *rng, nTx int, sch c03Schema, layered bool, pool c03Pool) string {
+	ids := pool.ids[:3+r.intn(2)]
 	sh := &c03Shadow{sch: sch, ents: map[string]*c03Thing{}, ext: map[string]bool{}}
 	var txs []string
 	for t := 0; t < nTx; t++ {
@@ -769,7 +920,7 @@ func c03GenHistory(r *rng, nTx int, sch c03Schema, layered bool) string {
 		work := sh.clone()
 		okTx := true
 		for i := 0; i < n; i++ {
-			op := c03GenOp(r, work, ids, c03Vals, c03RoleVals, layered)
+			op := c03GenOp(r, work, ids, pool, layered)
 			ops = append(ops, c03FmtOp(op))
 			if okTx && !work.apply(op) {
 				okTx = false
@@ -814,6 +965,60 @@ func c03GenSchema(r *rng) c03Schema {
 
 var c03ReadVals = csList([]string{"", "x", "y", "zq", "z", "r", "sq", "s", "a"})
 
+// c03GenPairs: for every family, every (old set, new set) pair over its first k members: one entity
+// goes from the old set to the new one (patch, full update, update through the child store) while
+// another entity keeps holding the family's first member; and the unique-index analogue (hand-over
+// of family members between two entities)
+func c03GenPairs(out *bufio.Writer, k int) {
+	subsets := func(m []string) [][]string {
+		var res [][]string
+		for mask := 0; mask < 1<<len(m); mask++ {
+			var sub []string
+			for i := len(m) - 1; i >= 0; i-- { // descending: the caller's order is not the bucket order
+				if mask&(1<<i) != 0 {
+					sub = append(sub, m[i])
+				}
+			}
+			res = append(res, sub)
+		}
+		return res
+	}
+	for fi, fam := range c03Families {
+		m := fam
+		if len(m) > k {
+			m = m[:k]
+		}
+		p := c03Pool{vals: fam, roleVals: fam, structured: true}
+		head := "h " + p.readVals()
+		for i, o := range subsets(m) {
+			for j, n := range subsets(m) {
+				create := c03Op{kind: 'c', id: "a", name: "p", roles: o}
+				upd := c03Op{kind: 'u', id: "a", name: "p", roles: n, chk: "r"}
+				switch (fi + i + j) % 3 {
+				case 1:
+					upd.chk = "*"
+				case 2:
+					create.kind, create.tag = 'C', "t"
+					upd.kind, upd.tag, upd.chk = 'U', "t", "rt"
+				}
+				fmt.Fprintf(out, "%s %s|%s|%s|%s\n", head,
+					c03FmtOp(c03Op{kind: 'c', id: "b", name: "q", roles: m[:1]}), c03FmtOp(create), c03FmtOp(upd), "d:"+toWire("a"))
+			}
+		}
+		for _, v := range m {
+			for _, w := range m {
+				if v == w {
+					continue
+				}
+				fmt.Fprintf(out, "%s %s|%s|%s|%s|%s|%s\n", head,
+					c03FmtOp(c03Op{kind: 'c', id: "a", name: v}), c03FmtOp(c03Op{kind: 'c', id: "b", name: w, alias: &w}),
+					c03FmtOp(c03Op{kind: 'u', id: "a", name: w, chk: "n"}), "d:"+toWire("b"),
+					c03FmtOp(c03Op{kind: 'u', id: "a", name: w, alias: &v, chk: "na"}), c03FmtOp(c03Op{kind: 'c', id: "b", name: v, alias: &w}))
+			}
+		}
+	}
+}
+
 func c03Gen(tier string, seed uint64, out *bufio.Writer) {
 	r := newRng(seed)
 	n := 1800
@@ -825,16 +1030,25 @@ func c03Gen(tier string, seed uint64, out *bufio.Writer) {
 		if tier != "thorough" {
 			nTx = 5 + r.intn(20)
 		}
+		// a third of the histories draw ids / values from a family of structured values
+		pool, reads := c03Classic, c03ReadVals
+		if r.chance(1, 3) {
+			pool = c03StructuredPool(r)
+			reads = pool.readVals()
+		}
 		if i%3 == 0 {
 			// the single store under the one-name schema
-			fmt.Fprintf(out, "h %s %s\n", c03ReadVals, c03GenHistory(r, nTx, c03Plain, false))
+			fmt.Fprintf(out, "h %s %s\n", reads, c03GenHistory(r, nTx, c03Plain, false, pool))
 		} else {
 			// parent + child store under a schema variant
 			sch := c03GenSchema(r)
-			fmt.Fprintf(out, "h %s %s %s\n", c03ReadVals, sch.wire(), c03GenHistory(r, nTx, sch, true))
+			fmt.Fprintf(out, "h %s %s %s\n", reads, sch.wire(), c03GenHistory(r, nTx, sch, true, pool))
 		}
 	}
-	if tier == "thorough" {
+	if tier != "thorough" {
+		c03GenPairs(out, 3)
+	} else {
+		c03GenPairs(out, 4)
 		c03GenExhaustive(out)
 		c03GenExhaustiveLayered(out)
 	}
